@@ -380,7 +380,7 @@ def control_literals():
     """String literals that the post-processing code compares with (or searches in / splits at) a text: operands of a comparison
     (`==`, `!=`, `in`, `not in`) and arguments of the str / re test methods, in every function of CONTROL_FILES.
     Returns {"all": [...], "priority": [...]} (sorted, non-empty literals of at most 60 characters)."""
-    allv, prio = set(), set()
+    allv, prio, asm = set(), set(), set()
     import os
 
     from .util import REPO
@@ -405,12 +405,14 @@ def control_literals():
             allv |= found
             if (rel, fn.name) in PRIORITY_FUNCS:
                 prio |= found
+            if (rel, fn.name) == ("nemoguardrails/rails/llm/llmrails.py", "generate_async"):
+                asm |= found
     if "(remove last message)" not in allv and not any("remove" in v for v in allv):
         # not an error (the control script may legitimately disappear) - but say so in the evidence
         pass
     if len(allv) < 50:
         raise TieBroken(f"only {len(allv)} compared string literals found in the post-processing modules (files moved?)")
-    return {"all": sorted(allv), "priority": sorted(prio)}
+    return {"all": sorted(allv), "priority": sorted(prio), "generate_async": sorted(asm)}
 
 
 def _is_sub(node, name, key):
@@ -512,6 +514,11 @@ def assembly():
 def run():
     info = dataflow()
     info.update(tables())
-    info.update(assembly())
     info["control_literals"] = control_literals()
+    try:
+        info.update(assembly())
+    except TieBroken as e:
+        # the generator still needs the literal scan: report the broken shape through static_tie (Generated/C17Assembly.lean keeps the
+        # last shape that was understood)
+        info["assembly_tie_broken"] = str(e)
     return info
